@@ -1,7 +1,9 @@
 package verifsimrt
 
 import (
+	"cmp"
 	"reflect"
+	"slices"
 	"unsafe"
 )
 
@@ -217,4 +219,25 @@ func SelectYield() {
 	if s := active.Load(); s != nil && !inert(s) {
 		s.park("SelectDefault", nil)
 	}
+}
+
+// MapKeys is substituted for ranging over a map where the code under test
+// does so and the order matters to the simulation (goroutine spawn order,
+// listing order): the keys in an order drawn from the picker, so that Go's
+// randomised map iteration is decided by the tape. Without simulation the
+// order is sorted.
+func MapKeys[K cmp.Ordered, V any](m map[K]V) []K {
+	keys := make([]K, 0, len(m))
+	for k := range m {
+		keys = append(keys, k)
+	}
+	slices.Sort(keys)
+	if s := active.Load(); s != nil && !inert(s) && len(keys) > 1 {
+		for i := len(keys) - 1; i > 0; i-- {
+			j := s.picker.ChooseBranch(i + 1)
+			keys[i], keys[j] = keys[j], keys[i]
+		}
+		s.trace(s.cur, "map-order "+itoa(len(keys)))
+	}
+	return keys
 }
